@@ -43,6 +43,15 @@
 
 
 /**
+ * SNOOPY_DATASOURCE_NAME_MAX_SIZE
+ *
+ * Maximum length of a data source name (including the ':' separator when an argument follows)
+ */
+#define SNOOPY_DATASOURCE_NAME_MAX_SIZE 100
+
+
+
+/**
  * SNOOPY_DATASOURCE_ARG_MAX_SIZE
  *
  * Maximum length of a string argument to each data source
